@@ -4,6 +4,7 @@ S1  parameter wiring: every parameter (every element of a single array parameter
     size_in_bits of its type, and is bound to exactly that many consecutive fresh wires, numbered from 2
 S2  literal inference keeps types and wires together: constrain_type pushes the expected type into every child that shares the
     node's type (operands, branches, clause bodies, block tail, literal elements) before it overwrites the node's own type
+S6  no integer logarithm (panics on 0) of a size in compile.rs without a dominating zero test / clamp
 S5  constant-filled vectors returned by an expression arm are never sized by a Type constructed on the spot (a literal's suffix)
 S4  cross-reference: rows of a join are truncated to their own element width (C13-J6), else the value is wider than its type
 S3  the circuit is built from the wires of the function body: outputs = panic record ++ wires returned by the body (C02-P5 for the
@@ -297,5 +298,49 @@ def rule_s5(ctx):
     return res
 
 
+TRAPPING_INT_FNS = {"ilog2": "0", "ilog10": "0", "ilog": "0"}
+
+
+def rule_s6(ctx):
+    """Integer helpers that panic on 0 are not applied to sizes that can be 0 (zero-sized types, empty arrays are legal)."""
+    res = RuleResult("S6", "no integer logarithm of a size in the compiler without a dominating test that the size is not zero")
+    n = 0
+    for f in ctx.facts["fns"]:
+        if "mir" not in f or not f["sp"][0].endswith("compile.rs") or f.get("from_expansion"):
+            continue
+        body = ctx.body(f["id"])
+        for b, t in body.calls():
+            seg = mir.last_seg(mir.callee(t) or "")
+            if seg not in TRAPPING_INT_FNS or "core::num" not in (mir.callee(t) or "") and "std::num" not in (mir.callee(t) or "") and "<impl" not in (mir.callee(t) or ""):
+                continue
+            n += 1
+            arg = t["args"][0]
+            key = {(r, tuple(p)) for (r, p) in body.trace_operand(arg)}
+            ok = False
+            # max(x, 1) / x.max(1)
+            for (r, p) in key:
+                if r[0] == "call" and mir.last_seg(r[2] or "") == "max":
+                    mt = body.term(r[1])
+                    if any(a["k"] == "const" and isinstance(a.get("val"), int) and a["val"] >= 1 for a in mt["args"]):
+                        ok = True
+            # a dominating comparison of the same value with 0 / 1
+            for gb, blk in enumerate(body.blocks):
+                for st in blk["stmts"]:
+                    if st["k"] == "assign" and st["rv"]["k"] == "binop" and st["rv"]["op"] in ("Eq", "Ne", "Gt", "Lt", "Ge", "Le") and body.dominates(gb, b) and gb != b:
+                        l, r_ = st["rv"]["l"], st["rv"]["r"]
+                        for me, other in ((l, r_), (r_, l)):
+                            if other["k"] == "const" and other.get("val") in (0, 1) and {(rr, tuple(pp)) for (rr, pp) in body.trace_operand(me)} & key:
+                                ok = True
+            if ok:
+                res.ok({"function": f["id"], "site": "%s at line %d" % (seg, t["sp"][1]), "verdict": "argument tested against zero / clamped to >= 1"})
+            else:
+                res.bad(Finding("S6", f["id"], "%s of a size that may be zero" % seg,
+                                "%s panics for 0; sizes of types and arrays can be 0 in accepted programs (zero-sized types, `[x; 0]`, a const supplied as 0): the compiler would panic on a program the checker accepts" % seg, t["sp"]))
+    res.note("integer-logarithm sites in compile.rs: %d" % n)
+    if n == 0:
+        res.ok({"verdict": "compile.rs contains no integer logarithm"})
+    return res
+
+
 def run(ctx):
-    return ctx.run_rules([rule_s1, rule_s2, rule_s3, rule_s4, rule_s5])
+    return ctx.run_rules([rule_s1, rule_s2, rule_s3, rule_s4, rule_s5, rule_s6])
